@@ -64,7 +64,7 @@ def corpus():
 
 
 def gen(rng, tier):
-    return g.gen_runs(rng, tier, cleanups=g.CLEANUPS, sfxs=(b"log", b"log", b"log", b"trc", None), bg=True,
+    return g.gen_runs(rng, tier, cleanups=g.CLEANUPS, sfxs=(b"log", b"log", b"log", b"trc", None, b"log.txt"), bg=True,
                       crits=["s0", "s4", "s4", "s10", "xm4"], vary_append=True)
 
 
